@@ -43,6 +43,12 @@ type Resp struct {
 
 type Key struct{ Id int64 }
 
+// apiKeyId identifies the pool's own object registered under the name k4.
+const apiKeyId = -1
+
+// poolsOwn: probe rule p4 read the pool's own k4 (not the data of any request).
+func poolsOwn(name string, v interface{}) bool { return name == "p4" && v == interface{}(int64(apiKeyId)) }
+
 // GetId is called by the probe rules p2 / p4 (a method of a request-scoped object).
 func (k *Key) GetId() int64 { return k.Id }
 
@@ -315,6 +321,9 @@ func NewStorm(k *fw.Case, jitter bool) (*Storm, error) {
 			time.Sleep(20 * time.Microsecond)
 			return x + 1
 		},
+		// k4 is ALSO the name of an object the pool was built with: requests that inject their own k4
+		// replace it for the time of the request; whatever is there afterwards, it is not their object
+		"k4": &Key{Id: apiKeyId},
 		"cfail": func(b bool) {
 			if b {
 				panic("a conc member fails on purpose")
@@ -435,6 +444,9 @@ func (s *Storm) fire(r *rand.Rand, c trace.Call, fail, boom bool, holdUs int64, 
 func (s *Storm) checkIdentity(d *done, when string) {
 	m := "pool." + d.call.Method
 	for name, v := range d.res {
+		if poolsOwn(name, v) && !d.injected["k4"] {
+			continue
+		}
 		iv, ok := v.(int64)
 		if !ok || iv != d.id {
 			s.find("iso", m+"/foreign-result", fmt.Sprintf("%s: request %d got result[%q]=%v (%s)", m, d.id, name, v, when), map[string]interface{}{"call": d.call, "result": fmt.Sprint(d.res)})
@@ -785,8 +797,8 @@ func (s *Storm) Run(clients, perClient int, faults bool) {
 	probes := append([]*done{}, s.dones[before:]...)
 	s.mu.Unlock()
 	for _, d := range probes {
-		for name := range d.res {
-			if len(name) == 2 && name[0] == 'p' {
+		for name, v := range d.res {
+			if len(name) == 2 && name[0] == 'p' && !poolsOwn(name, v) {
 				s.find("iso", "pool."+d.call.Method+"/stale-key-after-storm", fmt.Sprintf("a request that injected no keys could read k%s left behind by an earlier request (instance reached by simultaneous probes)", name[1:]), nil)
 			}
 		}
